@@ -1,6 +1,7 @@
 use crate::engine::PropDef;
 
 pub mod c01;
+pub mod c01_mmap;
 pub mod c02;
 pub mod c02_producers;
 pub mod c03;
@@ -40,6 +41,7 @@ pub fn all() -> Vec<PropDef> {
 /// entry point of `tvv child …` (used by the checks that need process isolation)
 pub fn child_main(args: &[String]) -> i32 {
     match args.first().map(|s| s.as_str()) {
+        Some("c01-mmap") => c01_mmap::child_main(&args[1..]),
         Some("c11") => c11::child_main(&args[1..]),
         Some("c18") => c18::child_main(args),
         Some(a) if a.starts_with("c16-") => c16::child_main(args),
